@@ -172,8 +172,8 @@ def bounded_entry_points(rep, quick):
                            'K<=2 exhaustive; random K<=7', exhaustive=False)
     rng = G.rng_for(env.SEED, 'C01')
 
-    def check(net):
-        c = N.build(net)
+    def check(net, c=None):
+        c = N.build(net) if c is None else c
         n = len(net.inputs)
         want_tt = N.tt(net)
         gtt = N.gates_tt(net)
@@ -235,6 +235,47 @@ def bounded_entry_points(rep, quick):
         if N.arity(net):
             continue
         record(net, check(net))
+    # the entry points must keep agreeing with den after the SAME object was queried and then mutated
+    # (results must not be remembered across mutations): query, mutate through a public mutator, query again
+    from cirbo.core.circuit import gate as _gate
+    muts = ['replace_inputs_true', 'replace_inputs_false', 'rename', 'reverse_outputs', 'add_gate', 'into_bench', 'mark_output']
+    for i in range(120 if quick else 1500):
+        net = G.random_net(rng, n_inputs=rng.randint(1, 3), k_gates=rng.randint(1, 5), permute_storage=False)
+        if N.arity(net) or not net.outputs:
+            continue
+        c = N.build(net)
+        bad0 = check(net, c)
+        if bad0:
+            continue
+        m = rng.choice(muts)
+        try:
+            if m == 'replace_inputs_true':
+                c.replace_inputs([net.inputs[0]], [])
+            elif m == 'replace_inputs_false':
+                c.replace_inputs([], [net.inputs[-1]])
+            elif m == 'rename':
+                c.rename_gate(rng.choice(list(net.gates)), 'renamed_gate')
+            elif m == 'reverse_outputs':
+                c.set_outputs(list(reversed(net.outputs)) + [net.outputs[0]])
+            elif m == 'add_gate':
+                nodes = list(net.gates)
+                c.emplace_gate('added_gate', _gate.XOR, (rng.choice(nodes), rng.choice(nodes)))
+                c.mark_as_output('added_gate')
+            elif m == 'into_bench':
+                c.into_bench()
+            else:
+                c.mark_as_output(rng.choice(list(net.gates)))
+        except Exception:
+            continue
+        net2 = N.snapshot(c)
+        if N.wf_violations(net2) or N.arity(net2):
+            continue
+        bad = check(net2, c)
+        rep.bounded_case(name, key=('after', m) + net.key(), nontrivial=True, sample=None)
+        if bad:
+            rep.violation('C01/entry-points/agree-with-den', 'queried-then-mutated', f'after {m}: {bad}',
+                          {'kind': 'bounded', 'netlist_before': net.to_json(), 'mutation': m, 'netlist_after': net2.to_json(), 'observed': repr(bad),
+                           'how': 'build(netlist_before); call every evaluation entry point; apply the mutation; call them again'})
 
 
 def run(rep):
